@@ -381,6 +381,21 @@ def hostile_member(rng, short=False):
     return core
 
 
+FOLD_TWINS = {"s": "ſ", "i": "ı", "I": "İ", "k": "K", "K": "K"}
+
+
+def foldvar(rng, w, p=0.06):
+    """Now and then a spelling of a keyword with one of the non-ASCII characters that re.IGNORECASE equates
+    with an ASCII letter ('ſupra', 'İd.', 'ıbid.')."""
+    if rng.random() >= p:
+        return w
+    idx = [i for i, ch in enumerate(w) if ch in FOLD_TWINS]
+    if not idx:
+        return w
+    i = rng.choice(idx)
+    return w[:i] + FOLD_TWINS[w[i]] + w[i + 1:]
+
+
 def frag(rng):
     r = rng.random()
     if r < 0.02:
@@ -399,10 +414,10 @@ def frag(rng):
     if r < 0.50:
         return f"{name(rng)}, {num(rng)} {rep(rng)} at {num(rng)}, {num(rng)} {rep(rng)} {num(rng)}"
     if r < 0.57:
-        return f"{ref_name(rng)}{rng.choice([', ', ', ', ' , ', ' '])}{rng.choice(['', num(rng) + ' '])}supra{rng.choice([', at ' + num(rng), '', ',', ' at ' + num(rng)])}"
+        return f"{ref_name(rng)}{rng.choice([', ', ', ', ' , ', ' '])}{rng.choice(['', num(rng) + ' '])}{foldvar(rng, 'supra')}{rng.choice([', at ' + num(rng), '', ',', ' at ' + num(rng)])}"
     if r < 0.65:
-        return rng.choice(["Id.", "Id. at " + num(rng), "Ibid.", "id., at " + num(rng) + "-" + num(rng),
-                           "Id. at " + num(rng) + " (noting x)", "Id., at *" + num(rng)])
+        return foldvar(rng, rng.choice(["Id.", "Id. at " + num(rng), "Ibid.", "id., at " + num(rng) + "-" + num(rng),
+                                        "Id. at " + num(rng) + " (noting x)", "Id., at *" + num(rng)]))
     if r < 0.71:
         return rng.choice(["42 U.S.C. § 1983", "Mass. Gen. Laws ch. 1, § 2 (West 1999)", "§ 5", "§§ 1-2",
                            "29 C.F.R. § 1910.1200(a)(2)", "Fla. Stat. § 1.01 (2020)",
